@@ -59,8 +59,11 @@ def names_for(assign):
     return n
 
 
+DUMMIES = ("dummy_p", "dummy_q")
+
+
 def back(nm):
-    inv = {v: CANON[k] for k, v in nm.items()}
+    inv = {v: CANON[k] for k, v in nm.items() if k not in DUMMIES}
     vt = nm["var_temp"]
 
     def b(s):
@@ -359,8 +362,10 @@ def nontrivial(assign):
 
 def run_assign(rec, assign, sections=None):
     nm = names_for(assign)
-    if len(set(nm.values())) != len(nm):
-        return  # not injective against the canonical names of the other roles
+    # injective within a namespace: dummy names only have to differ from each other
+    others = [v for k, v in nm.items() if k not in DUMMIES]
+    if len(set(others)) != len(others) or nm["dummy_p"] == nm["dummy_q"]:
+        return
     if any(v in POSWORDS for v in assign.values()):
         return
     secs = sorted(set(s for r in assign for s in ROLE_SECTIONS[r])) if sections is None else sections
@@ -424,6 +429,9 @@ def assignments(tier):
     for a, b in pairs:
         for n1, n2 in itertools.permutations(PAIRPOOL, 2):
             out.append({a: n1, b: n2})
+    # dummy names spelled like the real axes (same and crosswise) and like dimensions
+    for n1, n2 in (("X", "Y"), ("Y", "X"), ("X", "q"), ("p", "X"), ("Y", "q"), ("xc", "yc"), ("Z", "X")):
+        out.append({"dummy_p": n1, "dummy_q": n2})
     return out
 
 
